@@ -10,6 +10,7 @@ import (
 	"bufio"
 	"fmt"
 	"os"
+	"sort"
 	"strings"
 	"sync"
 
@@ -65,6 +66,34 @@ func concMain(g int) {
 			}
 		}
 	}
+	// "hot" ops: a few lines of every op kind (first two tokens; the longest ones, which carry the most elements), run by EVERY
+	// goroutine, so that each code path is executed by many goroutines at once (per-kind scratch state shows up as a race)
+	var hot []int
+	{
+		byKind := map[string][]int{}
+		var kinds []string
+		for i, l := range lines {
+			t := strings.Fields(l)
+			if len(t) == 0 || len(l) > 4000 {
+				continue
+			}
+			k := t[0]
+			if len(t) > 1 {
+				k += " " + t[1]
+			}
+			if _, ok := byKind[k]; !ok {
+				kinds = append(kinds, k)
+			}
+			byKind[k] = append(byKind[k], i)
+		}
+		for _, k := range kinds {
+			idx := byKind[k]
+			sort.SliceStable(idx, func(a, b int) bool { return len(lines[idx[a]]) > len(lines[idx[b]]) })
+			for j := 0; j < len(idx) && j < 4; j++ {
+				hot = append(hot, idx[j])
+			}
+		}
+	}
 	var wg sync.WaitGroup
 	var mu sync.Mutex
 	mismatches := 0
@@ -95,6 +124,12 @@ func concMain(g int) {
 					note(fmt.Sprintf("%s => concurrent %s, sequential %s", lines[i], r, seq[i]))
 				}
 			}
+			for k := range hot {
+				i := hot[(k+w)%len(hot)]
+				if r := runOp(lines[i]); r != seq[i] {
+					note(fmt.Sprintf("%s => concurrent %s, sequential %s", lines[i], r, seq[i]))
+				}
+			}
 			for k := range sh {
 				s := sh[(k+w)%len(sh)]
 				if got := showNas(s.m); got != s.show {
@@ -114,7 +149,7 @@ func concMain(g int) {
 		}(w)
 	}
 	wg.Wait()
-	fmt.Printf("conc ops=%d goroutines=%d shared=%d mismatches=%d\n", len(lines), g, len(sh), mismatches)
+	fmt.Printf("conc ops=%d goroutines=%d shared=%d hot=%d mismatches=%d\n", len(lines), g, len(sh), len(hot), mismatches)
 	if first != "" {
 		fmt.Println("first: " + first)
 	}
